@@ -11,8 +11,13 @@ Per run:
      shifted and malformed initial strings), hamming_weight_encoder (gate skeleton) with the models.
  data level ('test', tolerance 1e-10): amplitudes of encoder(data)() against data/||data|| on data with
      zeros, negatives, sparse vectors, complex entries where documented.
+ angle level (C20/Angles.v, C20/PropsAngles.v: the acos / arctan2 / norm formulas of _generate_rbs_angles over the reals satisfy
+     the load equations, all n; complex data of hamming_weight_encoder incl. RZ layers and phase correction): the real angle
+     lists of unary_encoder / hamming_weight_encoder / binary_encoder are spied and compared with the model's exact rational
+     cos^2 (fractions.Fraction, 1e-13) + signs + zero-norm guard + range; numpy.arctan2 / math.acos are contract-checked (1e-15)
+     on every argument the real code passed to them; complex data: gate layout, thetas, and the phase equations of the phis.
 """
-STATIC = ["C20/Props", "Base/TrigMat"]
+STATIC = ["C20/Props", "C20/PropsAngles", "Base/TrigMat"]
 import ast
 import hashlib
 import itertools
@@ -660,11 +665,412 @@ def hopf_zero_block(run):
                  "aligned block of the data is entirely zero (repaired; a VIOLATION if it returns)", {"data": [0, 0, 1, 2], "error": err, "state": None if s is None else [str(x) for x in s]})
 
 
+# ------------------------------------------------------------------ (c') angle level: the real angle lists against the Coq angle model
+# C20/Angles.v models _generate_rbs_angles over the reals (diag_angles with any arctan2 satisfying the polar contract;
+# tree_angle_rows with acos, the zero-norm guard and the 2 pi - theta rule).  cos^2 of every modelled angle is a RATIO OF
+# PARTIAL SUMS OF SQUARES (PropsAngles.angle_cos2_is_rational): computed here exactly with fractions.Fraction from the
+# binary64 inputs and compared with cos^2 of the angle the real code produced (1e-13), together with the signs of cos / sin
+# the model prescribes, the exact 0.0 of the zero-norm guard and the range of the 2 pi - theta rule.  The external functions
+# are contract-checked on every argument the real code passed to them during the run (1e-15).
+ANGLE_TOL = 1e-13
+CONTRACT_TOL = 1e-15
+
+
+class AngleSpy:
+    """records every numpy.arctan2 / math.acos / _generate_rbs_angles call made inside qibo.models.encodings"""
+
+    def __init__(self):
+        self.atan2, self.acos, self.calls = [], [], []
+
+    def __enter__(self):
+        import qibo.models.encodings as enc
+        spy = self
+        self.enc = enc
+        self.saved = (enc._check_engine, enc.math, enc._generate_rbs_angles)
+        real_engine, real_math, real_gen = self.saved
+
+        class NpProxy:
+            def __getattr__(self, name):
+                return getattr(np, name)
+
+            @staticmethod
+            def arctan2(y, x):
+                r = np.arctan2(y, x)
+                spy.atan2.append((float(y), float(x), float(r)))
+                return r
+
+        class MathProxy:
+            def __getattr__(self, name):
+                return getattr(math, name)
+
+            @staticmethod
+            def acos(u):
+                r = math.acos(u)
+                spy.acos.append((float(u), float(r)))
+                return r
+
+        def engine(array):
+            e = real_engine(array)
+            return NpProxy() if e is np else e
+
+        def gen(data, architecture, nqubits=None):
+            out = real_gen(data, architecture, nqubits)
+            spy.calls.append(([float(x) for x in np.asarray(data)], architecture, nqubits, [float(x) for x in out]))
+            return out
+        enc._check_engine, enc.math, enc._generate_rbs_angles = engine, MathProxy(), gen
+        return self
+
+    def __exit__(self, *a):
+        self.enc._check_engine, self.enc.math, self.enc._generate_rbs_angles = self.saved
+        return False
+
+
+def sgn(x):
+    return (x > 0) - (x < 0)
+
+
+def model_diag_angles(xs):
+    """Angles.diag_angles, shadow: per angle (cos^2 numerator, denominator, sign of cos, sign of sin)"""
+    d = len(xs)
+    suf = [0] * (d + 1)
+    for i in range(d - 1, -1, -1):
+        suf[i] = suf[i + 1] + xs[i] * xs[i]
+    out = [(xs[k] * xs[k], suf[k], sgn(xs[k]), sgn(suf[k + 1]), None) for k in range(d - 2)]
+    out.append((xs[d - 2] * xs[d - 2], suf[d - 2], sgn(xs[d - 2]), sgn(xs[d - 1]), None))
+    return out
+
+
+def model_tree_angles(xs):
+    """Angles.tree_angle_rows / tree_angles (heap order = concatenation of the levels, root first), shadow as above;
+    last component: the interval the modelled angle lies in ('lo' = [0, pi], 'hi' = [pi, 2 pi], 'zero' = exactly 0.0)"""
+    from fractions import Fraction
+    rows, leaf = [], True
+    level = [(sgn(x), x * x) for x in xs]
+    while len(level) > 1:
+        row, nxt = [], []
+        for (sa, qa), (sb, qb) in zip(level[0::2], level[1::2]):
+            den = qa + qb
+            row.append((qa, den, sa, sb, "zero" if den == 0 else ("hi" if (leaf and sb < 0) else "lo")))
+            nxt.append((sgn(den), den))
+        rows.insert(0, row)
+        level, leaf = nxt, False
+    return [e for row in rows for e in row]
+
+
+def check_angle_list(real, model):
+    """(None, _) if the real angle list matches the model, else (description, concrete): concrete = the load equations fail
+    (wrong cos / sin, so a wrong state); not concrete = only the correspondence with the model broke (an angle that differs
+    from the modelled one by a multiple of 2 pi, or a non-zero angle on a zero partial norm)"""
+    if len(real) != len(model):
+        return f"{len(real)} angles, model has {len(model)}", True
+    soft = None
+    for i, (t, (num, den, sc, ss, rng_)) in enumerate(zip(real, model)):
+        if not math.isfinite(t):
+            return f"angle {i} is {t}", True
+        if den == 0:
+            if rng_ == "zero" and t != 0.0:
+                soft = soft or f"angle {i}: zero partial norm but angle {t} (the guard gives 0.0)"
+            continue                    # diagonal: any angle satisfies the load equations when the partial norm is 0
+        c2 = float(num / den)
+        if abs(math.cos(t) ** 2 - c2) > ANGLE_TOL:
+            return f"angle {i}: cos^2 = {math.cos(t) ** 2!r}, model {c2!r} = {num}/{den}", True
+        if c2 >= 1e-12 and sgn(math.cos(t)) != sc:
+            return f"angle {i}: sign of cos is {sgn(math.cos(t))}, model {sc}", True
+        if 1 - c2 >= 1e-12 and sgn(math.sin(t)) != ss:
+            return f"angle {i}: sign of sin is {sgn(math.sin(t))}, model {ss}", True
+        if rng_ == "lo" and not (0.0 <= t <= math.pi):
+            soft = soft or f"angle {i}: {t} outside [0, pi]"
+        if rng_ == "hi" and not (math.pi <= t <= 2 * math.pi):
+            soft = soft or f"angle {i}: {t} outside [pi, 2 pi]"
+    return soft, False
+
+
+def check_contracts(spy):
+    """polar contract of arctan2 (Angles.atan2_contract) and defining property of acos on the recorded calls"""
+    bad = []
+    for (y, x, t) in spy.atan2:
+        r = math.hypot(x, y)
+        if not math.isfinite(t) or abs(r * math.cos(t) - x) > CONTRACT_TOL * r or abs(r * math.sin(t) - y) > CONTRACT_TOL * r:
+            bad.append(("arctan2", y, x, t))
+    for (u, t) in spy.acos:
+        if not (0.0 <= t <= math.pi) or abs(math.cos(t) - u) > CONTRACT_TOL:
+            bad.append(("acos", u, t))
+    return bad
+
+
+def angle_data(rng, n, kind):
+    """rational-friendly data: small integers or 3-digit decimals, with zeros / zero blocks / negatives"""
+    if kind == "int":
+        data = [float(rng.randint(-5, 5)) for _ in range(n)]
+    else:
+        data = [round(rng.uniform(-2, 2), 3) for _ in range(n)]
+    mode = rng.random()
+    if mode < 0.35:
+        for i in range(n):
+            if rng.random() < 0.4:
+                data[i] = 0.0
+    elif mode < 0.6 and n >= 4:          # an aligned all-zero block
+        m = rng.choice([b for b in (2, 4, 8) if b < n])
+        j = rng.randrange(n // m)
+        for i in range(j * m, (j + 1) * m):
+            data[i] = 0.0
+    elif mode < 0.7:
+        data = [-abs(x) for x in data]
+    if all(x == 0 for x in data):
+        data[rng.randrange(n)] = rng.choice([1.0, -1.0])
+    return data
+
+
+def angle_tie(run, rng, count, only=None):
+    """only = the replay dict of one recorded finding: re-run exactly that case"""
+    from fractions import Fraction
+    import qibo.models.encodings as enc
+    stats = {"unary_tree": 0, "unary_diagonal": 0, "hw_real": 0, "binary_hopf": 0, "binary_hyperspherical": 0,
+             "zero_partial_norms": 0, "negative_odd_leaves": 0, "arctan2_calls": 0, "acos_calls": 0}
+    fixed = [("tree", [0.0, 0.0, 1.0, 2.0]), ("tree", [0.0, 0.0, -3.0, 4.0]), ("tree", [1.0, -2.0, 0.0, 0.0]),
+             ("tree", [-1.0, -2.0, -3.0, -4.0, 0.0, 0.0, 0.0, 0.0]), ("tree", [0.0, -1.0]), ("tree", [-1.0, 0.0]),
+             ("diagonal", [3.0, 0.0, -4.0]), ("diagonal", [0.0, 0.0, 0.0, -1.0]), ("diagonal", [-1.0, 0.0, 0.0, 0.0]),
+             ("diagonal", [0.0, -2.0]), ("diagonal", [-2.0, 0.0]), ("diagonal", [-1.0, -2.0, 0.0, -4.0, 0.0])]
+    cases, hw_cases, bin_cases = list(fixed), [], []
+    for _ in range(count):
+        arch = rng.choice(["tree", "diagonal"])
+        n = rng.choice([2, 4, 8, 16]) if arch == "tree" else rng.randint(2, 10)
+        cases.append((arch, angle_data(rng, n, rng.choice(["int", "dec"]))))
+    for _ in range(max(10, count // 3)):
+        n = rng.randint(2, 6)
+        k = rng.randint(1, n - 1)
+        hw_cases.append((n, k, rng.random() < 0.5, angle_data(rng, math.comb(n, k), rng.choice(["int", "dec"]))))
+    for _ in range(max(10, count // 4)):
+        par = rng.choice(["hopf", "hyperspherical"])
+        bin_cases.append((par, angle_data(rng, 2 ** rng.randint(1, 4), rng.choice(["int", "dec"]))))
+    if only is not None:
+        e = only.get("encoder")
+        cases = [(only["architecture"], [float(x) for x in only["data"]])] if e == "unary" else []
+        hw_cases = [(only["n"], only["k"], only["optimize_controls"], [float(x) for x in only["data"]])] if e == "hamming_weight" else []
+        bin_cases = [(only["parametrization"], [float(x) for x in only["data"]])] if e == "binary" else []
+    contract_bad = []
+
+    def tie(what, key, real, model, rp):
+        msg, concrete = check_angle_list(real, model)
+        stats["zero_partial_norms"] += sum(1 for e in model if e[1] == 0)
+        stats["negative_odd_leaves"] += sum(1 for e in model if e[4] == "hi")
+        if msg:
+            run.find(("angles:" if concrete else "corr:angles:") + key,
+                     f"{what}: the angle list of the real code differs from the angle model of C20/Angles.v ({msg})"
+                     + ("" if concrete else " -- the cos/sin values still satisfy the load equations; only the correspondence with the model broke"),
+                     {**rp, "real_angles": [repr(t) for t in real]}, concrete=concrete)
+        return msg is None
+
+    # --- unary_encoder: the parameters of the circuit ARE _generate_rbs_angles(data), and those match the model
+    for arch, data in cases:
+        n = len(data)
+        run.case(["angles_unary", arch, data], nontrivial=any(x <= 0 for x in data))
+        stats["unary_" + arch] += 1
+        rp = {"encoder": "unary", "architecture": arch, "data": data}
+        key = f"unary:{arch}:" + hashlib.sha1(json.dumps(data).encode()).hexdigest()[:10]
+        with warnings.catch_warnings():
+            warnings.simplefilter("ignore")
+            try:
+                with AngleSpy() as spy:
+                    c = enc.unary_encoder(np.array(data, dtype=float), arch)
+                params = [float(p[0]) for p in c.get_parameters()]
+                err = None
+            except Exception as e:
+                err = f"{type(e).__name__}: {e}"
+        if err is not None or len(spy.calls) != 1 or spy.calls[0][0] != data or spy.calls[0][3] != params:
+            run.find(f"angles:{key}", "unary_encoder does not set the RBS parameters to _generate_rbs_angles(data, architecture, n)",
+                     {**rp, "error": err})
+            continue
+        xs = [Fraction(x) for x in data]
+        tie(f"unary_encoder({arch})", key, params, model_tree_angles(xs) if arch == "tree" else model_diag_angles(xs), rp)
+        contract_bad += check_contracts(spy)
+        stats["arctan2_calls"] += len(spy.atan2)
+        stats["acos_calls"] += len(spy.acos)
+
+    # --- hamming_weight_encoder (real data): thetas = diag angles of the data in WALK order, y_j = data[rank of walk string j]
+    for n, k, opt, data in hw_cases:
+        d = math.comb(n, k)
+        run.case(["angles_hw", n, k, opt, data])
+        stats["hw_real"] += 1
+        rp = {"encoder": "hamming_weight", "n": n, "k": k, "optimize_controls": opt, "data": data}
+        key = f"hw:{n}:{k}:" + hashlib.sha1(json.dumps(data).encode()).hexdigest()[:10]
+        with warnings.catch_warnings():
+            warnings.simplefilter("ignore")
+            try:
+                with AngleSpy() as spy:
+                    c = enc.hamming_weight_encoder(np.array(data, dtype=float), n, k, optimize_controls=opt)
+                thetas = [float(g.parameters[0]) for g in c.queue if type(g).__name__ == "RBS"]
+                strings, _ = enc._ehrlich_algorithm(np.array([1] * k + [0] * (n - k)))
+                err = None
+            except Exception as e:
+                err = f"{type(e).__name__}: {e}"
+        if err is None:
+            ints = [int(s_, 2) for s_ in strings]
+            order = sorted(ints)
+            walk = [data[order.index(v)] for v in ints]        # datum of the j-th walk string (lexicographic rank of the string)
+        if err is not None or len(spy.calls) != 1 or spy.calls[0][0] != walk or spy.calls[0][1] != "diagonal" or spy.calls[0][3] != thetas:
+            run.find(f"angles:{key}", "hamming_weight_encoder does not set the RBS angles to _generate_rbs_angles(data in walk order, 'diagonal')",
+                     {**rp, "error": err})
+            continue
+        if d >= 2:
+            tie("hamming_weight_encoder", key, thetas, model_diag_angles([Fraction(x) for x in walk]), rp)
+        contract_bad += check_contracts(spy)
+        stats["arctan2_calls"] += len(spy.atan2)
+
+    # --- binary_encoder (real data): hopf = RY(2 * tree angles); hyperspherical = diag angles of the data in its global walk order
+    for par, data in bin_cases:
+        run.case(["angles_binary", par, data])
+        stats["binary_" + par] += 1
+        rp = {"encoder": "binary", "parametrization": par, "data": data}
+        key = f"binary:{par}:" + hashlib.sha1(json.dumps(data).encode()).hexdigest()[:10]
+        with warnings.catch_warnings():
+            warnings.simplefilter("ignore")
+            try:
+                with AngleSpy() as spy:
+                    c = enc.binary_encoder(np.array(data, dtype=float), parametrization=par)
+                params = [float(p[0]) for p in c.get_parameters()]
+                err = None
+            except Exception as e:
+                err = f"{type(e).__name__}: {e}"
+        if par == "hopf":
+            ok = err is None and len(spy.calls) == 1 and spy.calls[0][0] == data and params == [2 * t for t in spy.calls[0][3]]
+            if ok:
+                tie("binary_encoder(hopf)", key, spy.calls[0][3], model_tree_angles([Fraction(x) for x in data]), rp)
+        else:
+            # the last call is the one on the real data (the inner hamming_weight_encoder calls use random placeholders)
+            ok = err is None and len(spy.calls) >= 1 and sorted(spy.calls[-1][0]) == sorted(data) and spy.calls[-1][1] == "diagonal"
+            if ok:
+                th = spy.calls[-1][3]
+                ok = len(params) == len(th) and all(p == t or p == 2 * t for p, t in zip(params, th))
+            if ok and len(data) >= 2:
+                tie("binary_encoder(hyperspherical)", key, th, model_diag_angles([Fraction(x) for x in spy.calls[-1][0]]), rp)
+        if not ok:
+            run.find(f"angles:{key}", "binary_encoder does not take its rotation angles from _generate_rbs_angles as modelled", {**rp, "error": err})
+            continue
+        contract_bad += check_contracts(spy)
+    run.oblige(f"contract: numpy.arctan2 satisfies Angles.atan2_contract on the {stats['arctan2_calls']}+ pairs the real code passed to it "
+               f"(relative {CONTRACT_TOL})", not [b for b in contract_bad if b[0] == "arctan2"], "contract")
+    run.oblige(f"contract: math.acos(u) in [0, pi] with cos(acos u) = u on the {stats['acos_calls']}+ arguments the real code passed to it "
+               f"({CONTRACT_TOL})", not [b for b in contract_bad if b[0] == "acos"], "contract")
+    for b in contract_bad[:3]:
+        run.find(f"angles:contract:{b[0]}:" + hashlib.sha1(repr(b).encode()).hexdigest()[:10],
+                 f"{b[0]} violates the contract the angle theorems assume: {b!r}", {"call": [repr(v) for v in b]}, concrete=False)
+    return stats
+
+
+def hw_complex_tie(run, rng, count, only=None):
+    """hamming_weight_encoder on COMPLEX data against the model of PropsAngles.hw_encoder_complex_angles_ok:
+    per move RBS(in, out, theta_k) + RZ(in, -phi_k) + RZ(out, phi_k) with the move's controls, then RZ(qz, 2 phi_last) controlled by
+    the ones of the last walk string (qz one of its zeros); thetas = diagonal angles of |y| (cos^2 against the exact rational
+    |y_k|^2 / sum_{i>=k} |y_i|^2); the phis satisfy 0 <= phi < 2 pi and the phase equations
+    |y_k| e^{i (sum_{i<k} phi_i - phi_k)} = y_k  that the proof derives from phis[k] = (-angle(y_k) + sum(phis[:k])) mod 2 pi."""
+    from fractions import Fraction
+    import cmath
+    import qibo.models.encodings as enc
+    stats = {"cases": 0, "zero_entries": 0, "moves": 0}
+    cases = []
+    for _ in range(count):
+        n = rng.randint(2, 6)
+        k = rng.randint(1, n - 1)
+        d = math.comb(n, k)
+        re, im = angle_data(rng, d, rng.choice(["int", "dec"])), angle_data(rng, d, rng.choice(["int", "dec"]))
+        mode = rng.random()
+        if mode < 0.2:
+            re = [0.0] * d
+        elif mode < 0.4:
+            for i in range(d):
+                if rng.random() < 0.4:
+                    re[i] = im[i] = 0.0
+            if not any(re) and not any(im):
+                im[rng.randrange(d)] = -1.0
+        cases.append((n, k, rng.random() < 0.5, re, im))
+    if only is not None:
+        cases = [(only["n"], only["k"], only["optimize_controls"], [float(x) for x in only["re"]], [float(x) for x in only["im"]])]
+    for n, k, opt, re, im in cases:
+        d = math.comb(n, k)
+        data = np.array(re) + 1j * np.array(im)
+        run.case(["angles_hw_complex", n, k, opt, re, im])
+        stats["cases"] += 1
+        rp = {"encoder": "hamming_weight_complex", "n": n, "k": k, "optimize_controls": opt, "re": re, "im": im}
+        key = f"hwc:{n}:{k}:" + hashlib.sha1(json.dumps([re, im]).encode()).hexdigest()[:10]
+
+        def bad(msg, concrete=True):
+            run.find(("angles:" if concrete else "corr:angles:") + key,
+                     "hamming_weight_encoder (complex data) differs from the model of C20/Angles.v: " + msg, rp, concrete=concrete)
+        with warnings.catch_warnings():
+            warnings.simplefilter("ignore")
+            try:
+                with AngleSpy() as spy:
+                    c = enc.hamming_weight_encoder(data, n, k, optimize_controls=opt)
+                ref = enc.hamming_weight_encoder(np.arange(1.0, d + 1), n, k, optimize_controls=opt)
+                strings, _ = enc._ehrlich_algorithm(np.array([1] * k + [0] * (n - k)))
+            except Exception as e:
+                bad(f"{type(e).__name__}: {e}")
+                continue
+        ints = [int(s_, 2) for s_ in strings]
+        order = sorted(ints)
+        walk = [complex(data[order.index(v)]) for v in ints]
+        stats["zero_entries"] += sum(1 for z in walk if z == 0)
+        q = [g for g in c.queue if type(g).__name__ != "X"]
+        skel = [(tuple(g.target_qubits), tuple(sorted(g.control_qubits))) for g in ref.queue if type(g).__name__ == "RBS"]
+        # RZ(...).controlled_by(one qubit) is returned by qibo as the class CRZ (same matrix: controlled RZ)
+        if len(q) != 3 * (d - 1) + 1 or [type(g).__name__.replace("CRZ", "RZ") for g in q] != ["RBS", "RZ", "RZ"] * (d - 1) + ["RZ"]:
+            bad("gate sequence is not (RBS, RZ, RZ) per move followed by one RZ: " + str([type(g).__name__ for g in q][:12]))
+            continue
+        thetas, phis, okq = [], [], True
+        for j in range(d - 1):
+            g, z1, z2 = q[3 * j:3 * j + 3]
+            tq, cq = tuple(g.target_qubits), tuple(sorted(g.control_qubits))
+            okq &= (tq, cq) == skel[j] and tuple(z1.target_qubits) == (tq[0],) and tuple(z2.target_qubits) == (tq[1],) \
+                and tuple(sorted(z1.control_qubits)) == cq and tuple(sorted(z2.control_qubits)) == cq \
+                and float(z1.parameters[0]) == -float(z2.parameters[0])
+            thetas.append(float(g.parameters[0]))
+            phis.append(float(z2.parameters[0]))
+        last = strings[-1]
+        gl = q[-1]
+        okq &= tuple(sorted(gl.control_qubits)) == tuple(i for i, ch in enumerate(last) if ch == "1") \
+            and len(gl.target_qubits) == 1 and last[gl.target_qubits[0]] == "0"
+        phis.append(float(gl.parameters[0]) / 2)
+        stats["moves"] += d - 1
+        if not okq:
+            bad("qubits / controls / parameters of the RZ layers or of the phase-correction gate are not as modelled")
+            continue
+        if len(spy.calls) != 1 or spy.calls[0][1] != "diagonal" or spy.calls[0][0] != [float(v) for v in np.abs(np.array(walk))] or spy.calls[0][3] != thetas:
+            bad("thetas are not _generate_rbs_angles(|data| in walk order, 'diagonal')")
+            continue
+        # thetas: exact rational shadow; |y_k|^2 = re^2 + im^2
+        sq = [Fraction(z.real) ** 2 + Fraction(z.imag) ** 2 for z in walk]
+        suf = [0] * (d + 1)
+        for i in range(d - 1, -1, -1):
+            suf[i] = suf[i + 1] + sq[i]
+        model = [(sq[i], suf[i], sgn(sq[i]), sgn(suf[i + 1]), None) for i in range(d - 2)] + [(sq[d - 2], suf[d - 2], sgn(sq[d - 2]), sgn(sq[d - 1]), None)]
+        msg, concrete = check_angle_list(thetas, model)
+        if msg:
+            bad(msg, concrete)
+            continue
+        # phis: range and phase equations
+        nrm = math.sqrt(float(suf[0]))
+        acc, msgp = 0.0, None
+        for j, (z, ph) in enumerate(zip(walk, phis)):
+            if not (0.0 <= ph < 2 * math.pi + 1e-12):
+                msgp = f"phi_{j} = {ph!r} outside [0, 2 pi)"
+                break
+            if abs(abs(z) * cmath.exp(1j * (acc - ph)) - z) > 1e-12 * nrm:
+                msgp = f"phase equation {j} fails: |y| e^(i(sum - phi)) = {abs(z) * cmath.exp(1j * (acc - ph))!r}, y = {z!r}"
+                break
+            acc += ph
+        if msgp:
+            bad(msgp, concrete="phase equation" in msgp)
+    return stats
+
+
 RULE = ("dtype x sparsity x sign matrix for every data encoder (float64 / int64 / complex dtype with zero imaginary parts / genuinely complex; dense positive, mixed, negative, sparse, basis vectors, +-1 patterns); QFT: n=1..5 (6 thorough) operator obligations (both variants), n<=12 structure; comp_basis: random bit strings in all accepted "
         "input formats; ghz n=2..12; phase_encoder random data/rotation; unary: pairs for tree n=2..32 and diagonal n=2..12, data with "
         "zeros/negatives/sparse + all 0/1 patterns of length 4 and 8 for the NaN condition; Ehrlich: every (n,k), n<=10, plus shifted "
         "and malformed initial strings; hamming_weight_encoder skeleton for every (n,k), n<=7, both optimize_controls, data incl. "
-        "complex; binary_encoder hyperspherical (real/complex) and hopf (real)")
+        "complex; binary_encoder hyperspherical (real/complex) and hopf (real); angle level: unary (tree n<=16, diagonal n<=10), "
+        "hamming-weight (n<=6) and binary encoders on integer / 3-digit decimal data with zeros, all-zero aligned blocks and negatives -- "
+        "nontrivial = a zero partial norm or a negative entry")
 
 
 # ------------------------------------------------------------------ entangling_layer / phase_encoder / random gaussian loader
@@ -857,7 +1263,11 @@ def main(run):
                     "Base/Mat.v embed/cembed as the meaning of 'gate on qubits' (qubit 0 most significant)",
                     "numpy state-vector simulation for the data-level tests (tolerance 1e-10, labelled 'test')"]
     run.assumptions += ["exact real arithmetic in the QFT obligations (rounding not modelled)",
-                        "data-dependent angles (acos / arctan2 / norms) are not modelled in Coq: amplitudes are compared numerically ('test')"]
+                        "data-dependent angles: _generate_rbs_angles (arctan2 of partial norms / acos of ratios with the zero-norm guard and the "
+                        "2 pi - theta rule) is modelled over Coq's reals in C20/Angles.v (real data); numpy.arctan2 enters through the polar contract "
+                        "Angles.atan2_contract (proved for the atan-based Angles.atan2, checked at 1e-15 on every pair the real code passes), math.acos "
+                        "and math.sqrt / linalg.norm are read as the real functions acos / sqrt (binary64 rounding not modelled); the tie of the real "
+                        "angle lists to the model is numeric at the angle level (cos^2 against the exact rational, 1e-13, plus signs / guard / range)"]
     names = vcore.props_theorems("C20/Props.v")
     ok, pa = vcore.static_assumptions("C20/Props")
     for nme in names:
@@ -866,6 +1276,13 @@ def main(run):
             for m in re.finditer(r"([A-Za-z_][\w.]*) :", pa.get(nme, "")):
                 run.axioms.add(m.group(1))
     run.notes["print_assumptions"] = pa
+    names_a = vcore.props_theorems("C20/PropsAngles.v")
+    ok_a, pa_a = vcore.static_assumptions("C20/PropsAngles")
+    for nme in names_a:
+        run.oblige(nme, ok_a and nme in pa_a, "theorem")
+        for m in re.finditer(r"([A-Za-z_][\w.]*) :", pa_a.get(nme, "")):
+            run.axioms.add(m.group(1))
+    run.notes["print_assumptions_angles"] = pa_a
     run.not_proved += [
         "qft_ok is PROVED for all n >= 1, both variants (qft_ok, qft_ok_noswap and their complex instances: every column of the product "
         "matrix circ_mat(QFT n) of Base/Mat.v is the DFT column, bit-reversed output without swaps; pstep_rules_agree_with_matrices; matrix "
@@ -876,18 +1293,28 @@ def main(run):
         "is the reported transposition); independent cross-check by computation for n <= 10 (ehrlich_enumerates_bounded)",
         "unary encoders: PROVED at ring level for all n, no division (zero blocks included): the diagonal ladder (rbs_chain_rotations, "
         "unary_diagonal_ok_ring) and the BREADTH-FIRST tree gate list of _generate_rbs_pairs (unary_tree_bfs_ok_ring; recursive form "
-        "unary_tree_ok_ring). NOT proved: that the acos/atan2 angle formulas of the real code satisfy the load equations (data-level tests "
-        "incl. all 0/1 patterns of length 4 and 8)",
+        "unary_tree_ok_ring). PROVED over the reals for all n (PropsAngles.v): the angle formulas of _generate_rbs_angles satisfy those load "
+        "equations and hence the amplitudes are data_p/||data|| for every real data <> 0 incl. zero entries, all-zero aligned blocks (the "
+        "zero-norm guard) and negative entries (unary_diagonal_angles_ok for any arctan2 with the polar contract + the atan-based instance, "
+        "unary_tree_angles_ok with acos and the 2 pi - theta rule). Remaining outside: binary64 rounding of the angle computation; the tie of "
+        "the real angle lists to the model is per run (cos^2 vs exact rationals at 1e-13, signs, guard, range; contracts of arctan2/acos at 1e-15)",
         "hw_encoder_ok at ring level is PROVED for ALL n and k with the control sets the code emits, both optimize_controls settings "
         "(hw_encoder_ok, hw_emitted_chain_ok: Model.hw_gates = mirror + sort + optimisation mask satisfies chain_ok; the mask drops exactly the "
         "controls on prefix positions where every loaded string carries a one -- prefix_block over the Ehrlich walk); array-coordinate variant "
-        "hw_encoder_ok_full_controls. NOT proved (data-level tests only): complex data (RZ layers, phase correction), the lexicographic "
-        "re-ordering of the data, that arctan2/norm angles satisfy the load equations",
+        "hw_encoder_ok_full_controls. PROVED over the reals (hw_encoder_angles_ok, all n, k, both control settings): with thetas = the diagonal "
+        "angle formulas of the data y in walk order, the amplitude of the j-th walk string is y_j/||y|| and every other basis state has amplitude 0. "
+        "COMPLEX data PROVED (hw_complex_chain_ok at ring level, closed; hw_encoder_complex_angles_ok over C): per move RBS + RZ(in,-phi) + RZ(out,phi), "
+        "the phase-correction RZ(qz, 2 phi_last) on the ones of the last string, thetas from |y|, phis[k] = (-angle(y_k) + sum(phis[:k])) mod 2 pi "
+        "give amplitude y_j/||y|| on the j-th walk string, zero entries and arbitrary phases included; tied per run at gate/angle level. "
+        "NOT proved (per-run tie only): that y = data[lex_order] is the lexicographic re-ordering (checked per run against the real walk); "
+        "binary64 rounding",
         "entangling_layer (8 architectures, closed boundary), phase_encoder: PROVED for all n at the structural level (entangling_layer_ok, "
         "entangling_shifted_is_diagonal, entangling_layer_sizes, phase_encoder_ok) + exact structural correspondence; "
         "binary_encoder: hopf rotations are fully controlled for all n (binary_hopf_rotations_fully_controlled); the hopf / hyperspherical gate "
-        "skeletons are tied by structural correspondence for n <= 5 (6 thorough) only, their amplitudes (and unary_encoder_random_gaussian's "
-        "sampled angles) are only tested / not covered",
+        "skeletons are tied by structural correspondence for n <= 5 (6 thorough) only; their rotation angles are the same tree / diagonal "
+        "angle lists (tied per run) whose cos/sin products are PROVED to be data/||data|| (tree_products_ok, hyperspherical_products_ok), but the "
+        "circuit semantics of the two binary encoders (controlled RY ladders, intermediate gates, the global walk order) is NOT modelled: their "
+        "amplitudes (and unary_encoder_random_gaussian's sampled angles) are only tested / not covered",
         "still bounded or per-run: ehrlich_enumerates_bounded (an independent vm_compute cross-check, n <= 10, superseded by ehrlich_enumerates); "
         "QFT operator instances n <= 5/6 via TrigMat (cross-check of qft_ok on the traced real gates); gate matrices of H/CU1/SWAP via TrigMat for k <= 6",
     ]
@@ -898,6 +1325,8 @@ def main(run):
     simple_encoders(run, rng, 120 if thorough else 40)
     unary_structure(run)
     run.notes["unary_data"] = unary_data(run, rng, 300 if thorough else 80)
+    run.notes["angle_tie"] = angle_tie(run, random.Random(run.seed + 20), 400 if thorough else 120)
+    run.notes["hw_complex_tie"] = hw_complex_tie(run, random.Random(run.seed + 21), 120 if thorough else 40)
     run.notes["ehrlich"] = ehrlich_corr(run, rng, 10 if thorough else 9)
     hw_structure(run, 7 if thorough else 6)
     run.notes["hw_data"] = hw_data(run, rng, 200 if thorough else 50)
@@ -928,6 +1357,12 @@ def replay(run, data):
                     bad = True
             if bad:
                 run.find(key, data.get("what", ""), rp)
+    elif key.startswith("angles:contract"):
+        angle_tie(run, rng, 40)
+    elif (key.startswith("angles:") or key.startswith("corr:angles:")) and rp.get("encoder") == "hamming_weight_complex":
+        hw_complex_tie(run, rng, 0, only=rp)
+    elif key.startswith("angles:") or key.startswith("corr:angles:"):
+        angle_tie(run, rng, 0, only=rp)
     elif key.startswith("binary:hopf"):
         hopf_zero_block(run)
     elif key.startswith("qft:") or key.startswith("corr:qft"):
